@@ -3,7 +3,7 @@ sys.path.insert(0, os.path.dirname(os.path.dirname(os.path.abspath(__file__))))
 import coqreplay as _coqreplay
 
 PROP = {
-    "coq": ["C02"],
+    "coq": ["C02", "Findings"],
     "extra": [_coqreplay.replay_cc],
     "exhaustive": False,
     "rule": "For generated valid requests of all 30 calls (MBAP and RTU framing): the valid reply, the valid reply plus trailing "
